@@ -1,6 +1,164 @@
-(* C21 statements (in progress) *)
-From Coq Require Import List NArith ZArith Bool.
+(* C21 — hash ring replica sets are non-empty, healthy, bounded and host-independent.
+   Statements only; every proof is `exact <lemma from Proof/C21.v>`.
+
+   A ring is observed after New and any number of Refresh calls.  Each call receives what the
+   environment answered: the members (hostlist.List.Resolve, in the order the Go map happened
+   to iterate) and the healthy set (healthcheck.Filter.Run).  history_wf says that these answers
+   respect the contracts the ring relies on (non-empty member set, sets without duplicates,
+   healthy included in members).  The theorems hold for every such history, every MaxReplica
+   (0 means the default), every key and every score function; "top owners" are the members by
+   descending score, and the order/host-independence clauses need the stated tie_free
+   hypothesis (distinct members score differently on the key). *)
+From Coq Require Import List NArith ZArith Bool Permutation.
 From K.Model Require Import C21.
 From K.Proof Require C21.
-Theorem C21_placeholder : apply_defaults 0 = 3%Z.
-Proof. exact Proof.C21.placeholder. Qed.
+Import ListNotations.
+
+(* the replica set exists (no panic, no fatal) and is non-empty *)
+Theorem C21_nonempty : forall (key T : Type) (ltb : T -> T -> bool) (score : node -> key -> T) maxr first steps k,
+  history_wf first steps = true ->
+  exists l, locations ltb score (run_ring maxr first steps) k = Locs l /\ l <> [].
+Proof. exact Proof.C21.cl_nonempty. Qed.
+Print Assumptions C21_nonempty.
+
+(* drawn from current members (those of the LAST Resolve) *)
+Theorem C21_subset_members : forall (key T : Type) (ltb : T -> T -> bool) (score : node -> key -> T) maxr first steps k,
+  history_wf first steps = true ->
+  forall l, locations ltb score (run_ring maxr first steps) k = Locs l ->
+  forall a, In a l -> In a (fst (last_step first steps)).
+Proof. exact Proof.C21.cl_subset_members. Qed.
+Print Assumptions C21_subset_members.
+
+(* if some member is healthy, only healthy members are returned *)
+Theorem C21_all_healthy : forall (key T : Type) (ltb : T -> T -> bool) (score : node -> key -> T) maxr first steps k,
+  history_wf first steps = true ->
+  forall l, locations ltb score (run_ring maxr first steps) k = Locs l ->
+  snd (last_step first steps) <> [] ->
+  forall a, In a l -> In a (snd (last_step first steps)).
+Proof. exact Proof.C21.cl_all_healthy. Qed.
+Print Assumptions C21_all_healthy.
+
+(* at most MaxReplica addresses (one, if MaxReplica < 1) *)
+Theorem C21_bounded : forall (key T : Type) (ltb : T -> T -> bool) (score : node -> key -> T) maxr first steps k,
+  history_wf first steps = true ->
+  forall l, locations ltb score (run_ring maxr first steps) k = Locs l ->
+  (length l <= Nat.max 1 (Z.to_nat (apply_defaults maxr)))%nat.
+Proof. exact Proof.C21.cl_bounded. Qed.
+Print Assumptions C21_bounded.
+
+(* the exact set, in rank order: spec_locations (Model/C21.v) IS the statement, written as a
+   function of the members ranked by descending score *)
+Theorem C21_characterisation : forall (key T : Type) (ltb : T -> T -> bool) (score : node -> key -> T) maxr first steps k,
+  history_wf first steps = true ->
+  exists ns, Permutation ns (member_nodes (fst (last_step first steps))) /\
+    locations ltb score (run_ring maxr first steps) k =
+    Locs (spec_locations (apply_defaults maxr) (snd (last_step first steps)) (ordered ltb score ns k)).
+Proof. exact Proof.C21.cl_characterisation. Qed.
+Print Assumptions C21_characterisation.
+
+(* reading the three cases off spec_locations *)
+(* (1) no member healthy: the top owner *)
+Theorem C21_spec_none_healthy : forall maxr healthy ranked,
+  existsb (fun x => memb (label x) healthy) ranked = false ->
+  spec_locations maxr healthy ranked = match ranked with x :: _ => [label x] | [] => [] end.
+Proof. exact Proof.C21.spec_none_healthy. Qed.
+Print Assumptions C21_spec_none_healthy.
+(* (2) the healthy members among the top MaxReplica owners, when there is one *)
+Theorem C21_spec_top_healthy : forall maxr healthy ranked,
+  filter (fun x => memb (label x) healthy) (firstn (Z.to_nat maxr) ranked) <> [] ->
+  spec_locations maxr healthy ranked =
+  map label (filter (fun x => memb (label x) healthy) (firstn (Z.to_nat maxr) ranked)).
+Proof. exact Proof.C21.spec_top_healthy. Qed.
+Print Assumptions C21_spec_top_healthy.
+(* (3) otherwise the single highest-ranked healthy member: everything ranked above it is unhealthy *)
+Theorem C21_spec_next_healthy : forall maxr healthy ranked,
+  existsb (fun x => memb (label x) healthy) ranked = true ->
+  filter (fun x => memb (label x) healthy) (firstn (Z.to_nat maxr) ranked) = [] ->
+  exists l1 x l2, ranked = l1 ++ x :: l2 /\ spec_locations maxr healthy ranked = [label x] /\
+                  memb (label x) healthy = true /\ forall y, In y l1 -> memb (label y) healthy = false.
+Proof. exact Proof.C21.spec_next_healthy. Qed.
+Print Assumptions C21_spec_next_healthy.
+
+(* the rank order, hence the answer, is a function of the membership SET: whatever history and
+   discovery order, the result is the statement evaluated on ANY arrangement ms of the members *)
+Theorem C21_characterisation_by_set : forall (key T : Type) (ltb : T -> T -> bool) (score : node -> key -> T),
+  strict_total ltb -> forall maxr first steps k ms,
+  history_wf first steps = true ->
+  Permutation ms (member_nodes (fst (last_step first steps))) ->
+  tie_free score k ms ->
+  locations ltb score (run_ring maxr first steps) k =
+  Locs (spec_locations (apply_defaults maxr) (snd (last_step first steps)) (ordered ltb score ms k)).
+Proof. exact Proof.C21.history_locations_set. Qed.
+Print Assumptions C21_characterisation_by_set.
+
+(* "Processes with the same membership compute the same ordered replica set whatever order they
+   discovered the hosts in": any two histories ending in the same member set and healthy set *)
+Theorem C21_order_independent : forall (key T : Type) (ltb : T -> T -> bool) (score : node -> key -> T),
+  strict_total ltb -> forall maxr f1 s1 f2 s2 k,
+  history_wf f1 s1 = true -> history_wf f2 s2 = true ->
+  Permutation (fst (last_step f1 s1)) (fst (last_step f2 s2)) ->
+  (forall a, In a (snd (last_step f1 s1)) <-> In a (snd (last_step f2 s2))) ->
+  tie_free score k (member_nodes (fst (last_step f1 s1))) ->
+  locations ltb score (run_ring maxr f1 s1) k = locations ltb score (run_ring maxr f2 s2) k.
+Proof. exact Proof.C21.order_independent. Qed.
+Print Assumptions C21_order_independent.
+
+(* the digest enters only through its shard id (first four hex digits, core/digest.go:154) *)
+Theorem C21_shard_only : forall (T : Type) (ltb : T -> T -> bool) (score : node -> list N -> T) r h1 h2,
+  firstn 4 h1 = firstn 4 h2 -> locations_digest ltb score r h1 = locations_digest ltb score r h2.
+Proof. exact (@Proof.C21.shard_only). Qed.
+Print Assumptions C21_shard_only.
+
+(* executable form: the oracle evaluated on the model's own output *)
+Theorem C21_check_sound : forall maxr first steps r,
+  C21_check maxr first steps r (locations_run maxr first steps r) = true.
+Proof. exact Proof.C21.check_sound. Qed.
+Print Assumptions C21_check_sound.
+
+(* ---- outside the contracts, and the tie hypothesis ---- *)
+
+(* an empty member set (excluded by hostlist.New, list.go:47) makes Locations panic: nil hash ... *)
+Theorem C21_empty_membership_refuted : forall (key T : Type) (ltb : T -> T -> bool) (score : node -> key -> T) maxr healthy k,
+  locations ltb score (new_ring maxr [] healthy) k = Panic.
+Proof. exact Proof.C21.empty_membership_panics. Qed.
+Print Assumptions C21_empty_membership_refuted.
+(* ... or nodes[0] of an empty hash (harness seed "seed-empty-membership" observes both) *)
+Theorem C21_emptied_membership_refuted : forall (key T : Type) (ltb : T -> T -> bool) (score : node -> key -> T) maxr k,
+  locations ltb score (run_ring maxr ([0; 1]%N, [0]%N) [([], [])]) k = Panic.
+Proof. exact Proof.C21.emptied_membership_panics. Qed.
+Print Assumptions C21_emptied_membership_refuted.
+
+(* a Filter that answers with a non-member (no in-repo Filter does; C23_subset) yields an EMPTY
+   replica set (harness seed "seed-foreign-healthy" observes it) *)
+Theorem C21_foreign_healthy_refuted : forall (key T : Type) (ltb : T -> T -> bool) (score : node -> key -> T) k,
+  locations ltb score (new_ring 0 [0; 1]%N [2]%N) k = Locs [].
+Proof. exact Proof.C21.foreign_healthy_empty. Qed.
+Print Assumptions C21_foreign_healthy_refuted.
+
+(* with tied scores two discovery orders disagree: tie_free cannot be dropped.  Not reproducible
+   on the real ring short of a 64-bit murmur3 collision; the driver counts ties on everything
+   it explores (0 so far). *)
+Theorem C21_order_independent_ties_refuted :
+  exists r, locations N.ltb tscore (new_ring 1 [0; 1]%N [0; 1]%N) r <> locations N.ltb tscore (new_ring 1 [1; 0]%N [0; 1]%N) r.
+Proof. exact Proof.C21.order_independent_ties_refuted. Qed.
+Print Assumptions C21_order_independent_ties_refuted.
+
+(* ---- non-vacuity ---- *)
+(* four hosts scoring 5,9,7,3 on a key (rank order 1,2,0,3), healthy = {0,3}, after a history
+   with a join, an unchanged membership and a health change: the history is well formed, the
+   scores are distinct, and the three cases of the statement all occur as MaxReplica varies *)
+Example C21_nonvacuous :
+  let first := ([0; 1]%N, [0; 1]%N) in
+  let steps := [([2; 0; 3; 1]%N, [2; 0; 3; 1]%N); ([0; 1; 2; 3]%N, [1; 2]%N); ([3; 2; 1; 0]%N, [3; 0]%N)] in
+  let r := [5; 9; 7; 3]%N in
+  history_wf first steps = true /\
+  tie_freeb N.ltb tscore r (member_nodes [0; 1; 2; 3]%N) = true /\
+  r_hash (run_ring 2 first steps) = Some (member_nodes [2; 0; 3; 1]%N) /\   (* kept since the join *)
+  locations_run 2 first steps r = Locs [0]%N /\          (* top two (1,2) unhealthy: next healthy *)
+  locations_run 0 first steps r = Locs [0]%N /\          (* default 3: healthy among 1,2,0 *)
+  locations_run 4 first steps r = Locs [0; 3]%N /\       (* healthy among all four, in rank order *)
+  locations_run (-1) first steps r = Locs [0]%N /\
+  locations_run 2 first (steps ++ [([0; 1; 2; 3]%N, [])]) r = Locs [1]%N /\   (* nobody healthy: top owner *)
+  C21_check 2 first steps r (Locs [0]%N) = true /\ C21_check 2 first steps r (Locs [3]%N) = false /\
+  C21_check 2 first steps r (Locs []) = false /\ C21_check 2 first steps r Panic = false.
+Proof. vm_compute. repeat split; reflexivity. Qed.
